@@ -87,7 +87,7 @@ def lake_build(targets=('GambitV', 'driver')) -> tuple[bool, str, list[str]]:
 
 def theorem_names(lean_file: Path, namespace: str) -> list[str]:
 	text = _strip_comments(lean_file.read_text())
-	return [f'{namespace}.{m}' for m in re.findall(r'^\s*(?:private\s+|protected\s+)?theorem\s+([A-Za-z_][\w\'?!]*)', text, flags=re.M)]
+	return [f'{namespace}.{m}' for m in re.findall(r'^\s*(?:protected\s+)?theorem\s+([A-Za-z_][\w\'?!]*)', text, flags=re.M)]
 
 
 def audit_axioms(modules_and_ns: list[tuple[str, str]]) -> dict:
